@@ -54,6 +54,12 @@ node outside the state (separation-style invariant `Inv` / frame `Res`).
   `Option` / `Either` / `AnyView` to be **nodeful** (`Ty.nodeful`: at least one DOM node in every
   value, `roots_ne_nil`), because the code loses its position otherwise: F-C03-6
   `nodeless-old-branch` (`C03_nodeless_old_branch_witness*`, hooks/c03_nodeless_old_branch_demo.rs).
+* **Attribute value forms, erasure, spreading** (widened after seed round 3): the Rust string type
+  of a value and the `into_cloneable[_owned]()` conversions are transparent (one string type in the
+  model); `Style<Option<_>>` is `.ostr "style"` (stage 2a); `view.add_any_attr(a)` is `View.spread a`
+  and keeps views well typed (`C03_spread_typed`, `Proofs/ViewSpread.lean`), so the theorems apply
+  to spread views.  Toggle names that are not one class token are outside `itemOk` (stage 2b) and a
+  known class of the correspondence run (F-C03-7 `invalid-class-token`).
 * The proof is parametric in the attribute fragment and in the relation on attribute lists:
   `rebuild_core` takes any `P`, `Q` with `AttrsFresh R` on the new elements / `AttrsRebuild R` on the
   retained pairs.
